@@ -23,7 +23,8 @@ META = {
             "thorough: all 8.5M ordered pairs) + Hypothesis pairs (a, k*a), (a, a with one entry changed), random: "
             "is_equivalent_to == exists k>0 with b == k*a on all 12 entries, ..._on_complete_rankings_only == same on "
             "entries 0..2 of both vectors (exact rationals); get_nickname == UKSP/GPDP/IGKS/EKS iff equivalent to the "
-            "corresponding p=1 preset (in that order) else str(scheme). Non-trivial: validation tuple violating "
+            "corresponding p=1 preset (in that order) else str(scheme). presets: the named constructors (with and without "
+            "p, p over a 12-value grid) hold the documented penalty patterns and the matching nickname. Non-trivial: validation tuple violating "
             "exactly one rule; equivalence pair that is proportional on exactly one of the two vectors.",
     "exhaustive": {"quick": ["all 3^12 twelve-tuples over {0,1,2} (validation)",
                              "all 2916 valid grid schemes x 183 partner schemes (1/16 of all ordered pairs)"],
@@ -312,9 +313,48 @@ def check_equivalence(case, ctx):
     check_nickname(case["b"])
 
 
+P_GRID = [0.0, 0.125, 0.25, 0.5, 0.75, 1.0, 1.5, 2.0, 3.0, 0.1, 0.3, 0.7]
+
+
+def preset_cases(tier):
+    for p in P_GRID:
+        yield {"p": p}
+
+
+def check_presets(case, ctx):
+    """the named constructors: the schemes the other properties call 'the unifying scheme', 'the induced measure' ...
+    are the ones these constructors build, so they are pinned to the documented penalty patterns (the same patterns the
+    nickname and every other check of this framework use)"""
+    from corankco.scoringscheme import ScoringScheme
+    p = case["p"]
+    want = {
+        "get_unifying_scoring_scheme_p": [[0., 1., p, 0., 1., p], [p, p, 0., p, p, 0.]],
+        "get_pseudodistance_scoring_scheme_p": [[0., 1., p, 0., 1., 0.], [p, p, 0., p, p, 0.]],
+        "get_induced_measure_scoring_scheme_p": [[0., 1., p, 0., 0., 0.], [p, p, 0., 0., 0., 0.]],
+    }
+    ctx.stats.case(case, p not in (0.0, 1.0), ["p:%s" % p])
+    for name, w in want.items():
+        sch = lib.must(getattr(ScoringScheme, name), p)
+        if sch.penalty_vectors != w:
+            raise Violation("ScoringScheme.%s(%r) holds %s, documented pattern %s" % (name, p, sch.penalty_vectors, w))
+        check_nickname(w)
+    if p == 1.0:
+        fixed = {"get_unifying_scoring_scheme": gen.PRESETS["unifying"],
+                 "get_pseudodistance_scoring_scheme": gen.PRESETS["pseudodistance"],
+                 "get_induced_measure_scoring_scheme": gen.PRESETS["induced"],
+                 "get_extended_measure_scoring_scheme": gen.PRESETS["extended"]}
+        for (name, w), (nick, _) in zip(fixed.items(), NICK):
+            sch = lib.must(getattr(ScoringScheme, name))
+            if sch.penalty_vectors != w:
+                raise Violation("ScoringScheme.%s() holds %s, expected %s" % (name, sch.penalty_vectors, w))
+            if lib.must(sch.get_nickname) != nick:
+                raise Violation("ScoringScheme.%s().get_nickname() = %r, expected %r" % (name, sch.get_nickname(), nick))
+
+
 def subchecks():
     return [EnumSub("validation_grid", validation_chunks, check_validation_chunk),
             HypSub("validation_malformed", malformed_cases, check_malformed, 6000, 60000),
             HypSub("scaling", scaling_cases, check_scaling, 6000, 60000),
             EnumSub("equivalence_grid", grid_pair_chunks, check_grid_pairs),
-            HypSub("equivalence_random", equivalence_cases, check_equivalence, 8000, 100000)]
+            HypSub("equivalence_random", equivalence_cases, check_equivalence, 8000, 100000),
+            EnumSub("presets", preset_cases, check_presets)]
